@@ -111,6 +111,20 @@ func BuildVariant(b *Base, v Variant) (doc *yaml.Node, mutated *yaml.Node) {
 		}
 		return doc, node
 	}
+	if mu.Op == "orckey" {
+		k := int(mu.Frag[0] - '0')
+		n := 0
+		for _, o := range b.Sites {
+			if o.Kind == "byKeySet.keys[]" && o.Node.Kind == yaml.ScalarNode {
+				if n == k {
+					node.Value = o.Node.Value
+					break
+				}
+				n++
+			}
+		}
+		return doc, node
+	}
 	applyMutation(s, mu, node, parent)
 	return doc, node
 }
